@@ -25,10 +25,10 @@ from lv import core, drive, sqlscope
 from lv.props import common
 
 ID = 'C10'
-BUDGET = {'quick': 400, 'thorough': 8000}   # 3/4 strings (x 11 positions x 8 engines), 1/4 flag cases
-WALL = {'quick': 600, 'thorough': 3600}
+BUDGET = {'quick': 560, 'thorough': 10000}  # half strings (each x 11 positions x 8 engines), half flag cases (x 8 engines)
+WALL = {'quick': 900, 'thorough': 3600}
 ENGINES = list(sqlscope.ENGINES)
-FLAG_SHARE = 4      # one generated case in FLAG_SHARE is a ${flag} case
+FLAG_SHARE = 2      # one generated case in FLAG_SHARE is a ${flag} case (they are cheap)
 RULE = ('A: strings of 0-8 tokens over the alphabet {a b space \' " \\ newline tab # / * '
         '- ; , ( ) [ ] { } % s d $ : | ~ ` = e-acute, a CJK char, an astral char} and a '
         'dictionary of hostile fragments (-- /* */ %s {0} {} \'\' \\\' \\\\ "; \') -- :- '
@@ -172,9 +172,10 @@ def control_tokens(position, engine):
         pr, sql = drive.compile_program(text, 'T', flags=flags)
         toks = sqlscope.lex(pr.execution.main_predicate_sql, engine)
         if CONTROL not in sqlscope.strings(toks):
-            raise AssertionError('control string not found as a literal: %s %s\n%s' % (
-                position, engine, pr.execution.main_predicate_sql))
-        _control[k] = [(t[0], t[1]) for t in toks]
+            # the plain control string itself does not arrive as a literal
+            _control[k] = ('broken', pr.execution.main_predicate_sql)
+        else:
+            _control[k] = [(t[0], t[1]) for t in toks]
     return _control[k]
 
 
@@ -196,7 +197,14 @@ def check_literal(s, position, form, engine):
         return ('internal', 'internal error %s\n%s\n%s' % (
             drive.exc_frame(e), traceback.format_exc()[-1500:], hdr))
     main = pr.execution.main_predicate_sql
-    ctl = control_tokens(position, engine)
+    try:
+        ctl = control_tokens(position, engine)
+    except Exception as e:
+        return ('control_rejected', 'the same program with the plain string "abc" does '
+                'not compile: %s: %s\n%s' % (type(e).__name__, common.first_line(e), hdr))
+    if isinstance(ctl, tuple):
+        return ('control_broken', 'the same program with the plain string "abc" has no '
+                'literal abc in its SQL:\n%s\n%s' % (ctl[1], hdr))
     try:
         toks = [(t[0], t[1]) for t in sqlscope.lex(main, engine)]
     except sqlscope.LexError as e:
@@ -269,6 +277,8 @@ def shrink_string(s, position, form, engine):
         f = form if can_express(form, t) else 'sq'
         return check_literal(t, position, f, engine) is not None
     chars = list(s)
+    if chars and fails([]):
+        return ''               # position/engine broken for every string
     if len(chars) > 1:
         chars = core.ddmin(chars, fails, max_tests=80)
         # ddmin never tries the empty list / single survivors exhaustively
@@ -305,7 +315,7 @@ def literal_bucket(s, position, form, engine):
     pat = failing_pattern(m)
     if (position, engine) not in pat:
         # fails only in a form other than '...'
-        return 'literal:%s:%s:at_%s:only_form_%s' % (cls, engine, position, f), m, f
+        return 'literal:%s:only_form_%s' % (cls, f), m, f
     engs = sorted(set(e for p, e in pat))
     poss = [p for p in POSITIONS if any(p == p2 for p2, e in pat)]
     where = 'all_positions' if len(poss) == len(POSITIONS) else 'at_' + '+'.join(poss)
@@ -659,6 +669,10 @@ def run_flags(col, defs, user, use):
 def shard(ctx, col):
     drive.enable_library_cache()
 
+    if ctx.k == 0:
+        # the control string is a case of the property like any other
+        for f in FORMS:
+            run_literal(col, CONTROL, [f] * len(POSITIONS))
     n_flag = ctx.budget // FLAG_SHARE
     n_lit = ctx.budget - n_flag
     core.hyp_run(lambda c: run_literal(col, c[1], c[2]), literal_cases(), n_lit,
